@@ -131,7 +131,7 @@ def judge(res, node, cfg, origin):
         if M.size(node) >= 3 and overlapping(node, cfg):
             res.nontrivial.add(env.h8((version, M.text(node), K.cfg_text(cfg))))
         if accepted == (ref == 'det'):
-            if res.evaluations % 400 == 0:
+            if len(res.samples) < 2:
                 res.sample({'model': M.text(node) + K.cfg_text(cfg), 'version': version, 'reference': ref, 'built': accepted})
             continue
         direction = 'missed' if accepted else 'false-alarm'
